@@ -382,7 +382,11 @@ func (env *CEnv) evalCall(x *ast.CallExpr) (Value, types.Type) {
 			if env.old == nil {
 				cfail("old() not available here")
 			}
-			oe := env.withState(env.old)
+			// evaluate over the old heap/variables; definitional facts produced on the way belong to the current path
+			tmp := *env.old
+			tmp.assumes = env.s.assumes
+			oe := env.withState(&tmp)
+			defer func() { env.s.assumes = tmp.assumes }()
 			if env.oldNames != nil {
 				oe.names = map[string]bound{}
 				for k, v := range env.names {
@@ -693,7 +697,11 @@ func (env *CEnv) evalCall(x *ast.CallExpr) (Value, types.Type) {
 				}
 				cfail("athead(%d): loop has no step clause or is not active", n)
 			}
-			return env.withState(hs).eval(x.Args[1])
+			tmpH := *hs
+			tmpH.assumes = env.s.assumes
+			hv, ht := env.withState(&tmpH).eval(x.Args[1])
+			env.s.assumes = tmpH.assumes
+			return hv, ht
 		case "recvd":
 			// recvd(ch, v): the struct value v was received from channel ch
 			chv, _ := env.eval(x.Args[0])
